@@ -26,7 +26,7 @@ INFO = {
 def run(ctx, rep):
     lib = ctx.lib
     c06_shared.route(rep, lib)
-    c06_shared.recover(rep, lib, rid="C16-RECOVER")
+    c06_shared.recover(rep, lib, rid="C16-RECOVER", require_recoverable=True)
     # ------------------------------------------------------------ CLEAN
     r = rep.rule("C06-CLEAN", "a parsed value and end of input produce no diagnostic; the `error:` template and the "
                  "stderr parameter are used only in read_input's error arm", floor=4,
